@@ -203,6 +203,10 @@ impl Prop for C17 {
                 let d = match c { Some(c) => D::new(c, s), None => D::new(i.v.clamp(-MAXC, MAXC), 0) };
                 Case { op, d, y: if l { Rhs::IntL(i) } else { Rhs::IntR(i) }, n, mode, t: None }
             }),
+            // machine-word boundary operands (i64::MIN with -1, 2^32 with 2^32, ...)
+            3 => (0u8..15, arb_word_pair(), arb_word_int(), any::<bool>(), 0u8..=18, 0u8..8).prop_map(|(op, (x, _), i, l, n, mode)| {
+                Case { op, d: x, y: if l { Rhs::IntL(i) } else { Rhs::IntR(i) }, n, mode, t: None }
+            }),
             // integer / integer forms of div_rounded and quantize
             2 => (any::<bool>(), arb_int(), arb_int(), n, 0u8..8, any::<bool>(), -300i128..=300, -300i128..=300).prop_map(|(q, a, b, n, mode, small, sa, sb)| {
                 let (lo, hi) = int_range(b.ty);
